@@ -182,3 +182,7 @@ class RemoteContext(SupportRemoteGetState):
             return True
         except ConnectionClosedError:
             return False
+        except Exception:
+            # a malformed request of one client must not take the context (and the workers of all other clients) down
+            logger.exception('Could not create a worker within context {}:', self._id)
+            return False
